@@ -291,8 +291,16 @@ impl<'a> Visitor for DecVisitor<'a> {
                         if let Some(d) = tree_diff(refv, val, false, "") {
                             out.viol("C06", "extension", id, "different-message", d);
                         }
-                        if *size != msize {
-                            out.viol("C06", "extension", id, "size", format!("size() {} of the extended message, {} of the message", size, msize));
+                        // "the same size()": compared with what the library itself says for the message alone
+                        // (whether that equals the reference extent is C05's question)
+                        if msize <= bs.len() {
+                            let p2 = eng.arena.place(msize, 0, 16, Place::End);
+                            p2.slice().copy_from_slice(&bs[..msize]);
+                            if let Obs::Ret(Ok(s0)) = guarded(|| T::from_bytes(p2.slice()).map(|x| x.size())) {
+                                if *size != s0 {
+                                    out.viol("C06", "extension", id, "size", format!("size() {} of the extended message, {} of the message alone", size, s0));
+                                }
+                            }
                         }
                     }
                     ("same", Err(e)) => {
